@@ -434,7 +434,11 @@ class Printer:
         if not paren and self.rng.random() < self.redundant:
             paren = True
         if paren:
-            return ['('] + self.raw(e, True) + [')']
+            # any number of pairs (`C05_parse_printTop`: `ex e` redundant pairs)
+            k = 1
+            while k < 4 and self.rng.random() < self.redundant * 0.6:
+                k += 1
+            return ['('] * k + self.raw(e, True) + [')'] * k
         return self.raw(e, open_right)
 
     def raw(self, e, open_right):
@@ -480,7 +484,15 @@ class Printer:
         """Separator between tokens `a` and `b`."""
         r = self.rng.random()
         if r < self.comments:
-            c = self.rng.randrange(4)
+            c = self.rng.randrange(6)
+            if c == 4:
+                # glued to both tokens; also separates texts that would need a blank
+                return '(*' + self.rng.choice(['', 'c', ' a * ', '(* x']) + '*)'
+            if c == 5 and a != '/':
+                # `/\\*` would be the conjunction: the only text a `\\*` comment may not follow
+                return '\\*' + self.rng.choice(['', ' t', 'a & b )', '*)']) + '\n'
+            if c == 5:
+                return ' '
             if c == 0:
                 return ' (* ' + self.rng.choice(['c', 'a /\\ b', '* ( *', '@@ $ %', 'x\ny']) + ' *) '
             if c == 1:
@@ -1108,6 +1120,21 @@ def probe_names(ctx):
     ctx.notes.append('add_expr(to_expr(var)) by variable name: ' + '; '.join(out))
 
 
+def part_f(ctx):
+    """(f) the lexical layer as `DDProps/C05Lex.lean` states it: token strings (not only
+    formulas) under random layouts — spelling row per token, glued / blank / comment gaps —
+    the converse on all glued pairs, comments in front of arbitrary text, unterminated comments."""
+    import checks_parselex
+    bulk = Bulk()
+
+    def esc_text(s):
+        # a last field that starts with `S:` is the schedule of the line protocol
+        return '%53' + esc(s[1:]) if s.startswith('S:') else esc(s)
+
+    checks_parselex.part_layout(ctx, bulk, esc_text, real_lex_answer, real_parse_answer)
+    ctx.add_session(bulk, SECTIONS_L2, 'C05 lexical layer: layouts')
+
+
 def check_C05(ctx):
     ctx.driver = DRIVER
     build_driver(ctx)
@@ -1115,6 +1142,7 @@ def check_C05(ctx):
     part_d(ctx)
     part_bc(ctx)
     part_e(ctx)
+    part_f(ctx)
     part_a(ctx)
     ctx.exhaustive = True
     ctx.notes.append(
@@ -1130,5 +1158,9 @@ REGISTRY = {
             'the next length, lexer on all short special-character strings, grammar-generated formulas up to depth 6 '
             'with random spellings/comments/parentheses; add_expr exact references+state vs model under all 6 orders, '
             '@n both signs, every operator pair/both orders vs a recursive-descent reader of doc.md over truth tables; '
-            'add_expr(to_expr(u)) == u for all 256 functions both signs; syntax errors injected at every token position'),
+            'add_expr(to_expr(u)) == u for all 256 functions both signs; syntax errors injected at every token position; '
+            'lexical layer: random token strings (any sequence of tokens) under random layouts (every spelling row, '
+            'glued/blank/comment gaps, leading and final comments) read back by the real lexer and the model, same parse '
+            'answer for two layouts of one token string, all glued pairs of token texts against needsBlank and its converse, '
+            'comments in front of arbitrary text, unterminated comments'),
 }
